@@ -1201,4 +1201,103 @@ theorem tracked_le_actual (s0 : St) (ops : List Op) (g : Genesis s0) (hops : ∀
   let h := inv_run ops s0 (inv_genesis g) hops
   ⟨h.dv0, h.df0, h.tracked⟩
 
+/-! ### owner only -/
+
+/-- every message is atomic: anything but `ok` leaves the state untouched (a failing end-block only halts) -/
+theorem step_atomic (s : St) (op : Op) (h : (step s op).2 ≠ "ok") (hb : ∀ t, op ≠ .block t) : (step s op).1 = s := by
+  unfold step at h ⊢
+  by_cases hh : s.halted
+  · simp [hh]
+  · simp only [hh, Bool.false_eq_true, if_false] at h ⊢
+    cases ha : LockupMV.apply s op with
+    | ok s' => simp [ha] at h
+    | err c => cases op <;> simp_all
+    | panic k => simp
+
+/-- who may act: the lockup handlers for the owner, the proxy handlers for the proxy's root owner; both the message's
+    sender field and the actual caller of MsgExecute must be that address — whichever validator the message names -/
+def authorised (s : St) : Op → Bool
+  | .send c sd _ _ _ => checkSender s.owner c sd
+  | .nvDelegate c sd _ _ _ _ => checkSender s.owner c sd
+  | .nvUndelegate c sd _ _ _ _ => checkSender s.owner c sd
+  | .nvWithdrawReward c sd _ => checkSender s.owner c sd
+  | .sdSelfDelegate c sd _ _ => checkSender s.owner c sd
+  | .sdWithdraw c sd _ => checkSender s.owner c sd
+  | .pxUndelegate d c sd _ _ => checkSender (rootOwner s d) c sd
+  | .pxWithdrawReward d c sd _ => checkSender (rootOwner s d) c sd
+  | .pxSend d c sd _ _ _ => checkSender (rootOwner s d) c sd
+  | _ => true
+
+theorem apply_unauthorised (s : St) (op : Op) (h : authorised s op = false) : ∃ c, LockupMV.apply s op = .err c := by
+  cases op <;> simp only [authorised] at h <;> (try exact absurd h (by decide)) <;>
+    simp only [LockupMV.apply, doSend, doNvDelegate, doNvUndelegate, doNvWithdrawReward, doSdSelfDelegate, doSdWithdraw,
+      doPxUndelegate, doPxWithdrawReward, doPxSend, h, Bool.not_false, if_true] <;>
+    (split <;> exact ⟨_, rfl⟩)
+
+/-- **owner_only** (several validators) — an account handler invoked by anybody but the owner (proxy: root owner), including an
+    outer signer that merely NAMES the owner in the sender field, for ANY validator argument, is an error and changes nothing -/
+theorem owner_only (s : St) (op : Op) (h : authorised s op = false) : step s op = (s, "err") ∨ step s op = (s, "halted") := by
+  obtain ⟨c, hc⟩ := apply_unauthorised s op h
+  unfold step
+  by_cases hh : s.halted
+  · right; simp [hh]
+  · left
+    simp only [hh, Bool.false_eq_true, if_false, hc]
+    cases op <;> simp [authorised] at h ⊢
+
+example : authorised { owner := "a0", created := true, vals := ["v0", "v1"] } (.nvUndelegate "a2" "a0" "v1" fee 700 {}) = false := by
+  decide
+
+/-! ### non-vacuity: a three-validator history meets every hypothesis of the theorems above and goes through the interesting
+    branches: delegations of locked coins to v0, v1, v2; undelegations from v2 (later key) FIRST, then from v0 in a later block,
+    a second one from v2 in the same block as the first (merged into one entry); the v2 unbonding matures and is paid back while
+    the v0 entry — EARLIER in the walk — is still pending: the account is blocked (the matured record of the later key is not
+    hidden by the pending record of the earlier key), the paid-back coins cannot be sent, a further delegation is refused;
+    undelegating is still possible. -/
+def exGenesis : St :=
+  { bank := Bank.empty.credit "a1" fee 5000, now := 100000000000, ut := 20000000000, vals := ["v0", "v1", "v2"] }
+def exOps : List Op := [
+  .init .nv "a1" "a0" 1000 false 110000000000 false 210000000000,
+  .nvDelegate "a0" "a0" "v0" fee 300 { share := 300 },
+  .nvDelegate "a0" "a0" "v2" fee 250 { share := 250 },
+  .nvDelegate "a0" "a0" "v1" fee 150 { share := 150, rewFee := 2 },
+  .block 120000000000,
+  .nvUndelegate "a0" "a0" "v2" fee 100 { share := 100 },
+  .nvUndelegate "a0" "a0" "v2" fee 50 { share := 50 },
+  .block 125000000000,
+  .nvUndelegate "a0" "a0" "v0" fee 120 { share := 120, rewFee := 1 },
+  .block 140000000500,
+  .send "a0" "a0" "a2" fee 100,
+  .nvDelegate "a0" "a0" "v1" fee 10 { share := 10 },
+  .nvUndelegate "a0" "a0" "v1" fee 40 { share := 40 } ]
+
+/-- the outcome class of every step of a history -/
+def outcomes (s : St) : List Op → List String
+  | [] => []
+  | op :: r => (step s op).2 :: outcomes (step s op).1 r
+
+example : Genesis exGenesis := by
+  refine ⟨rfl, rfl, rfl, rfl, rfl, rfl, rfl, rfl, ?_, ?_, ?_, ?_, ?_, ?_⟩
+  · decide
+  · decide
+  · intro v; show (0 : Int) ≤ (Bank.empty.credit "a1" fee 5000).bal lock (shareOf v)
+    simp [Bank.credit_bal, Bank.empty, lock]
+  · decide
+  · decide
+  · decide
+example : ∀ op ∈ exOps, OpOk op := by
+  intro op h
+  simp only [exOps, List.mem_cons, List.mem_nil_iff, or_false] at h
+  rcases h with h | h | h | h | h | h | h | h | h | h | h | h | h <;> subst h <;> simp [OpOk, extOk, lock]
+example : outcomes exGenesis exOps = ["ok", "ok", "ok", "ok", "ok", "ok", "ok", "ok", "ok", "ok", "err", "err", "ok"] := by decide
+example : (run exGenesis exOps).entries
+      = [("v0", [⟨145000000000, 120, 2⟩]), ("v1", [⟨160000000500, 40, 3⟩]), ("v2", [⟨140000000000, 150, 1⟩])]
+    ∧ blocked (run exGenesis exOps) = true
+    ∧ (run exGenesis exOps).scUnb = [⟨lock, 120, 145000000000⟩, ⟨lock, 40, 160000000500⟩]
+    ∧ (run exGenesis exOps).DV = 700 ∧ (run exGenesis exOps).DF = 0
+    ∧ (run exGenesis exOps).bank.bal lock fee = 453
+    ∧ sumShares (run exGenesis exOps).bank (run exGenesis exOps).vals = 390
+    ∧ custody (run exGenesis exOps) = 1003 ∧ actualDelegated (run exGenesis exOps) = 700
+    ∧ (match lockedT (run exGenesis exOps) 140000000500 with | .ok v => v | _ => -1) = 700 := by decide
+
 end Sunrise.C12MV
